@@ -64,17 +64,7 @@ func contains(s []int, v int) bool {
 }
 
 // paramVars: receiver first, then parameters.
-func paramVars(fi *FuncInfo) []*types.Var {
-	sig := fi.obj.Type().(*types.Signature)
-	var out []*types.Var
-	if sig.Recv() != nil {
-		out = append(out, sig.Recv())
-	}
-	for i := 0; i < sig.Params().Len(); i++ {
-		out = append(out, sig.Params().At(i))
-	}
-	return out
-}
+func paramVars(fi *FuncInfo) []*types.Var { return fi.params }
 
 func isSliceLike(t types.Type) bool {
 	switch t.Underlying().(type) {
